@@ -55,8 +55,8 @@ var kindCallTable = map[string]map[string]bool{
 	"encoding/protowire.AppendFixed64":  kFixed64,
 	"encoding/protowire.SizeFixed64":    kFixed64,
 	"encoding/protowire.ConsumeBytes":   kBytes,
-	"encoding/protowire.ConsumeString":  kset("String"),
-	"encoding/protowire.AppendString":   kset("String"),
+	"encoding/protowire.ConsumeString":  kset("String", "Bytes"), // a bytes field may be held in a Go string: same wire form
+	"encoding/protowire.AppendString":   kset("String", "Bytes"),
 	"encoding/protowire.ConsumeGroup":   kGroup,
 	"encoding/protowire.DecodeZigZag":   kZigZag,
 	"encoding/protowire.EncodeZigZag":   kZigZag,
@@ -75,14 +75,14 @@ var kindCallTable = map[string]map[string]bool{
 	"reflect/protoreflect.ValueOfFloat32": kset("Float"),
 	"reflect/protoreflect.ValueOfFloat64": kset("Double"),
 	"reflect/protoreflect.ValueOfString":  kset("String"),
-	"reflect/protoreflect.ValueOfBytes":   kset("Bytes"),
+	"reflect/protoreflect.ValueOfBytes":   kset("Bytes", "Message", "Group"), // the reflection decoder carries a nested message's raw bytes in a bytes Value before descending
 	"reflect/protoreflect.ValueOfEnum":    kset("Enum"),
 
 	"reflect/protoreflect.Value.Bool":   kset("Bool"),
 	"reflect/protoreflect.Value.Int":    kSigned,
 	"reflect/protoreflect.Value.Uint":   kUnsign,
 	"reflect/protoreflect.Value.Float":  kFloats,
-	"reflect/protoreflect.Value.Bytes":  kset("Bytes"),
+	"reflect/protoreflect.Value.Bytes":  kset("Bytes", "Message", "Group"), // see ValueOfBytes
 	"reflect/protoreflect.Value.Enum":   kset("Enum"),
 	"reflect/protoreflect.Value.String": nil, // String() is also the Stringer: not constrained
 
@@ -161,6 +161,15 @@ func (c *Ctx) kindCtxFunc(rule string, fi *FuncInfo) {
 	info := fi.Info()
 	counter := map[string]int{}
 	var visit func(n ast.Node, ctx kindCtx)
+	packedDepth := 0
+	isBytesTypeTest := func(cond ast.Expr) bool {
+		be, ok := unparen(cond).(*ast.BinaryExpr)
+		if !ok || be.Op != token.EQL {
+			return false
+		}
+		o := objOf(info, be.Y)
+		return o != nil && qualObj(o) == "encoding/protowire.BytesType"
+	}
 	checkCall := func(call *ast.CallExpr, ctx kindCtx) {
 		if len(ctx) == 0 {
 			return
@@ -180,6 +189,9 @@ func (c *Ctx) kindCtxFunc(rule string, fi *FuncInfo) {
 		if allowed, ok := kindCallTable[key]; ok && allowed != nil {
 			var badKinds []string
 			for k := range ctx {
+				if key == "encoding/protowire.ConsumeBytes" && packedDepth > 0 && (kVarint[k] || kFixed32[k] || kFixed64[k]) {
+					continue // packed repeated scalars are length-delimited: branch taken under wtyp == BytesType
+				}
 				if !allowed[k] {
 					badKinds = append(badKinds, k)
 				}
@@ -295,13 +307,51 @@ func (c *Ctx) kindCtxFunc(rule string, fi *FuncInfo) {
 				}
 				return
 			}
-			visit(s.Body, ctx)
+			if isBytesTypeTest(s.Cond) {
+				packedDepth++
+				visit(s.Body, ctx)
+				packedDepth--
+			} else {
+				visit(s.Body, ctx)
+			}
 			if s.Else != nil {
 				visit(s.Else, ctx)
 			}
 			return
 		case *ast.CallExpr:
 			checkCall(s, ctx)
+		case *ast.Ident:
+			// a coder table row: `case XKind: return …, coderX` — the primitives used by
+			// the coder's marshal/unmarshal functions must fit the Kind
+			if len(ctx) > 0 {
+				if v, ok := info.Uses[s].(*types.Var); ok && v.Parent() == v.Pkg().Scope() {
+					if prims := c.coderPrimitives(v); len(prims) > 0 {
+						counter["row:"+v.Name()]++
+						nm := fi.Key + " [" + ctx.names() + "] row " + v.Name() + " #" + itoa(counter["row:"+v.Name()])
+						var badKinds []string
+						for _, pk := range prims {
+							allowed := kindCallTable[pk]
+							if allowed == nil {
+								continue
+							}
+							for k := range ctx {
+								if pk == "encoding/protowire.ConsumeBytes" && (kVarint[k] || kFixed32[k] || kFixed64[k]) {
+									continue // packed form of repeated scalars
+								}
+								if !allowed[k] {
+									badKinds = append(badKinds, k+" uses "+short(pk))
+								}
+							}
+						}
+						sort.Strings(badKinds)
+						if len(badKinds) == 0 {
+							R.OK(rule, nm, P.Pos(s), "coder primitives fit the kind")
+						} else {
+							R.Bad(rule, nm, P.Pos(s), "the coder installed for this Kind encodes/decodes with primitives of another wire family or Go type: "+strings.Join(dedupe(badKinds), "; "))
+						}
+					}
+				}
+			}
 		}
 		// generic descent
 		ast.Inspect(n, func(x ast.Node) bool {
@@ -313,4 +363,64 @@ func (c *Ctx) kindCtxFunc(rule string, fi *FuncInfo) {
 		})
 	}
 	visit(fi.Decl.Body, nil)
+}
+
+// coderPrimitives: kind-typed primitives used by the marshal and unmarshal
+// functions of a package-level coder variable (pointerCoderFuncs/valueCoderFuncs).
+func (c *Ctx) coderPrimitives(v *types.Var) []string {
+	tn := namedTypeName(v.Type())
+	if tn != "internal/impl.pointerCoderFuncs" && tn != "internal/impl.valueCoderFuncs" {
+		return nil
+	}
+	if c.coderPrimCache == nil {
+		c.coderPrimCache = map[*types.Var][]string{}
+		pk := c.P.Pkg("internal/impl")
+		if pk == nil {
+			return nil
+		}
+		info := pk.TypesInfo
+		for _, f := range pk.Syntax {
+			for _, d := range f.Decls {
+				gd, ok := d.(*ast.GenDecl)
+				if !ok {
+					continue
+				}
+				for _, sp := range gd.Specs {
+					vs, ok := sp.(*ast.ValueSpec)
+					if !ok || len(vs.Names) != 1 || len(vs.Values) != 1 {
+						continue
+					}
+					cl, ok := unparen(vs.Values[0]).(*ast.CompositeLit)
+					if !ok {
+						continue
+					}
+					obj, _ := info.Defs[vs.Names[0]].(*types.Var)
+					if obj == nil {
+						continue
+					}
+					set := map[string]bool{}
+					for _, el := range cl.Elts {
+						kv, ok := el.(*ast.KeyValueExpr)
+						if !ok {
+							continue
+						}
+						if id, ok := kv.Key.(*ast.Ident); !ok || (id.Name != "marshal" && id.Name != "unmarshal") {
+							continue
+						}
+						if fo, ok := objOf(info, kv.Value).(*types.Func); ok {
+							if fx := c.P.Func(funcKey(fo)); fx != nil && fx.Decl.Body != nil {
+								for k := range c.coderFacts(fx).calls {
+									if _, known := kindCallTable[k]; known {
+										set[k] = true
+									}
+								}
+							}
+						}
+					}
+					c.coderPrimCache[obj] = sortedSet(set)
+				}
+			}
+		}
+	}
+	return c.coderPrimCache[v]
 }
